@@ -7,6 +7,7 @@ import Driver.Conv
 import Driver.Ka
 import Driver.Dp
 import Driver.Rq
+import Driver.Cn
 /-!
 # Line-protocol driver
 
@@ -22,6 +23,7 @@ structure St where
   ka : Keepalive.State := Keepalive.init 1
   dp : DrvDp.DSt := {}
   rq : DrvRq.RSt := {}
+  cn : Conn.State := {}
 
 def showPlainErr : Option PlainErr → String
   | none => "none" | some .requiresEncryption => "requiresEncryption" | some .protocol => "protocol"
@@ -131,6 +133,7 @@ def step (st : St) (line : String) : St × String :=
     else if h.startsWith "ka." then let r := DrvKa.kaStep st.ka ws; ({ st with ka := r.1 }, r.2)
     else if h.startsWith "dp." then let r := DrvDp.dpStep st.dp ws; ({ st with dp := r.1 }, r.2)
     else if h.startsWith "rq." then let r := DrvRq.rqStep st.rq ws; ({ st with rq := r.1 }, r.2)
+    else if h.startsWith "cn." then let r := DrvCn.cnStep st.cn ws; ({ st with cn := r.1 }, r.2)
     else (st, "bad-op")
 
 partial def loop (h : IO.FS.Stream) (out : IO.FS.Stream) (st : St) : IO Unit := do
